@@ -45,16 +45,36 @@ def r1_boolean(repo: Repo, rep):
             if p.ret is RAISE:
                 continue
             r = p.ret
-            if not (isinstance(r, ast.Call) and attr_chain(r.func) == "torch.where" and len(r.args) == 3):
-                rep.undecided(R, fi.site(p.ret_node), fi.fq, "torch.where(mask, n_a, ±n_b)", dump(r)[:100])
-                continue
-            m, a, b = r.args
             T = "self._transform_input_for_normals(points, params, device)"
             pts, prm = f"{T}[0]", f"{T}[1]"
-            okm = dump(m) == f"self.domain.domain_a.boundary._contains({pts}, {prm})"
-            rep.check(R, okm, fi.site(p.ret_node), fi.fq, "mask = domain_a.boundary._contains(points, params) on the transformed points/params", dump(m)[:140], dump(m)[:140])
-            oka = dump(a).startswith(f"self.domain.domain_a.boundary.normal({pts}, {prm}")
-            rep.check(R, oka, fi.site(p.ret_node), fi.fq, "where the mask holds: the normal of A's boundary at those points", dump(a)[:120], dump(a)[:120])
+            mask_txt = f"self.domain.domain_a.boundary._contains({pts}, {prm})"
+            m = a = b = None
+            if isinstance(r, ast.Call) and attr_chain(r.func) == "torch.where" and len(r.args) == 3:
+                m, a, b = r.args
+            else:
+                # short cuts: the mask is uniform on this path — all(mask): the A branch alone; not any(mask): the B branch alone
+                uni = None
+                for g, pol, k in p.guards:
+                    if k == "if" and isinstance(g, ast.Call) and attr_chain(g.func) in ("torch.all", "torch.any") and g.args and dump(g.args[0]) == mask_txt:
+                        if attr_chain(g.func) == "torch.all" and pol:
+                            uni = True
+                        if attr_chain(g.func) == "torch.any" and not pol:
+                            uni = False
+                if uni is None:
+                    rep.undecided(R, fi.site(p.ret_node), fi.fq, "torch.where(mask, n_a, ±n_b)", dump(r)[:100])
+                    continue
+                if uni:
+                    a = r
+                else:
+                    b = r
+            if m is not None:
+                okm = dump(m) == mask_txt
+                rep.check(R, okm, fi.site(p.ret_node), fi.fq, "mask = domain_a.boundary._contains(points, params) on the transformed points/params", dump(m)[:140], dump(m)[:140])
+            if a is not None:
+                oka = dump(a).startswith(f"self.domain.domain_a.boundary.normal({pts}, {prm}")
+                rep.check(R, oka, fi.site(p.ret_node), fi.fq, "where the mask holds: the normal of A's boundary at those points", dump(a)[:120], dump(a)[:120])
+            if b is None:
+                continue
             neg = False
             bb = b
             if isinstance(bb, ast.UnaryOp) and isinstance(bb.op, ast.USub):
@@ -310,7 +330,47 @@ def r5_single_point(repo: Repo, rep):
     r1_roundtrip(repo, rep, rule_id="R-C17-1")
 
 
+def _is_zero(e: ast.AST) -> bool:
+    if isinstance(e, ast.Constant):
+        return e.value in (0, 0.0) and not isinstance(e.value, bool)
+    if isinstance(e, ast.Call) and attr_chain(e.func) in ("torch.zeros_like", "torch.zeros"):
+        return True
+    if isinstance(e, ast.Call) and attr_chain(e.func) in ("torch.tensor", "torch.as_tensor") and e.args:
+        return _is_zero(e.args[0])
+    return False
+
+
+def r6_edge_tests(repo: Repo, rep):
+    R = rep.rule("R-C06-6", "polygon normals detect the edge of a point with the closeness test of the boundary's membership predicate: isclose(coordinate, edge value) with the "
+                 "same tolerances; a difference is never compared with zero (that drops the relative tolerance)", floor=3,
+                 why="a boundary point the membership test accepts but no edge test matches accumulates no normal: 0/0 = NaN")
+    for mod, cname in (("parallelogram", "ParallelogramBoundary"), ("triangle", "TriangleBoundary")):
+        ci = repo.cls(f"{DOM}.domain2D.{mod}.{cname}")
+        member, normal = [], []
+        for mname, fi in ci.methods.items():
+            seen = set()
+            for p in paths(fi.node):
+                for e in p.events:
+                    if e.value is None:
+                        continue
+                    for c in ast.walk(e.value):
+                        if isinstance(c, ast.Call) and attr_chain(c.func) == "torch.isclose" and len(c.args) >= 2 and dump(c) not in seen:
+                            seen.add(dump(c))
+                            (normal if "normal" in mname else member).append((fi, c))
+        tol_m = {tuple(sorted((k.arg, dump(k.value)) for k in c.keywords)) for fi, c in member}
+        for fi, c in normal:
+            rep.saw(fi)
+            subj, tgt = c.args[0], c.args[1]
+            tol = tuple(sorted((k.arg, dump(k.value)) for k in c.keywords))
+            shifted = _is_zero(tgt) and isinstance(subj, ast.BinOp) and isinstance(subj.op, ast.Sub) and not _is_zero(subj.right)
+            rep.check(R, not shifted, fi.site(c), fi.fq, "edge test isclose(coordinate, edge value): the edge value is the reference of the tolerance", dump(c)[:100], "difference compared with zero")
+            rep.check(R, not tol_m or tol in tol_m, fi.site(c), fi.fq, "same tolerances as the membership predicate of this boundary", f"{tol} vs {sorted(tol_m)}", f"tolerances {tol}")
+        if not normal:
+            rep.undecided(R, ci.module.relpath, ci.fq, "isclose edge tests in the normal computation", "none found: idiom not recognised")
+
+
 def run(repo: Repo, rep):
+    r6_edge_tests(repo, rep)
     r1_boolean(repo, rep)
     r2_r3_edges(repo, rep)
     r4_orientation(repo, rep)
@@ -326,6 +386,8 @@ _TR = "src/torchphysics/problem/domains/domain2D/triangle.py"
 _CI = "src/torchphysics/problem/domains/domain2D/circle.py"
 _TM = "src/torchphysics/problem/domains/domain3D/trimesh_polyhedron.py"
 MUTANTS = [
+    dict(id="C06-M20", file=_TR, old="torch.isclose(bary_coord, torch.tensor(i))", new="torch.isclose(bary_coord - i, torch.zeros_like(bary_coord))", rule="R-C06-6", what="shifted difference compared with zero"),
+    dict(id="C06-M21", file=_PA, old="torch.isclose(bary_y, torch.tensor(i))", new="torch.isclose(bary_y, torch.tensor(i), rtol=0.0)", rule="R-C06-6", what="other tolerance than the membership test"),
     dict(id="C06-M1", file=_CU, old="        normals = torch.where(on_a, a_normals, -b_normals)", new="        normals = torch.where(on_a, a_normals, b_normals)", rule="R-C06-1", what="cut normals not flipped"),
     dict(id="C06-M2", file=_U, old="        normals = torch.where(on_a, a_normals, b_normals)\n        return normals", new="        normals = torch.where(on_a, a_normals, -b_normals)\n        return normals", rule="R-C06-1", what="union normals flipped"),
     dict(id="C06-M3", file=_PA, old="        return torch.divide(normals, torch.linalg.norm(normals, dim=1).reshape(-1, 1))", new="        return normals", rule="R-C06-2", what="final normalisation removed"),
